@@ -106,26 +106,33 @@ func (o *Once) Do(f func()) {
 	}
 }
 
+// WaitGroup: the logical counter is plain data; the happens-before edges (Done before the Wait that
+// it releases, and no edge between two Done calls) are those of a real WaitGroup operated in
+// lockstep, whose Wait is only ever called with the counter at zero and therefore never blocks.
 type WaitGroup struct {
-	n  int
-	id int
-	hb stdsync.Mutex
+	n    int
+	id   int
+	real stdsync.WaitGroup
 }
 
 func (wg *WaitGroup) Add(d int) {
 	vsched.PointOp("wg.add", vsched.ObjID(&wg.id), nil)
-	wg.hb.Lock()
-	wg.n += d
-	wg.hb.Unlock()
-	if wg.n < 0 && !vsched.Aborting() {
+	if vsched.Aborting() {
+		return
+	}
+	if wg.n+d < 0 {
 		panic("sync: negative WaitGroup counter")
 	}
+	wg.n += d
+	wg.real.Add(d)
 }
 func (wg *WaitGroup) Done() { wg.Add(-1) }
 func (wg *WaitGroup) Wait() {
 	vsched.PointOp("wg.wait", vsched.ObjID(&wg.id), func() bool { return wgZero(wg) })
-	wg.hb.Lock()
-	wg.hb.Unlock()
+	if vsched.Aborting() {
+		return
+	}
+	wg.real.Wait()
 }
 
 func mutexFree(m *Mutex) bool   { return !m.held }
